@@ -11,6 +11,8 @@ import ast
 import inspect
 import math
 import random
+
+import numpy as np
 from fractions import Fraction as F
 
 import numpy
@@ -178,6 +180,49 @@ def near_the_ends(ck):
                     break
 
 
+def arrays_and_integer_coefficients(ck):
+    """(a) derivative(t, n) for an array of parameters is the array of the scalar answers (a constant for n = degree, 0 beyond), complex parts included;
+    (b) poly2bez / polynomial2bezier on integer-typed coefficients whose control points are not integers (exact rational reference)"""
+    for z in ([1 + 1j, 4 + 5j], [0j, 2 + 3j, 5 + 0j], [1 - 2j, 4 + 4j, -3 + 1j], [0j, 1 + 3j, 4 + 3j, 5 + 0j], [2 + 2j, 2 + 2j, 5 - 1j, -4 + 3j]):
+        seg = make(z)
+        n = len(z) - 1
+        for ts in (np.array([0.25, 0.5]), np.array([0, 1]), np.array([0.125, 0.5, 1.0, 2.0]), np.array([1, 3, 4])):
+            for k in range(1, n + 2):
+                ck.case(fp=('array-derivative', str(z), str(ts), k), nontrivial=True)
+                try:
+                    got = np.asarray(seg.derivative(ts, k)) * np.ones(len(ts))
+                    want = np.array([complex(seg.derivative(float(t_), k)) for t_ in ts])
+                    ok = got.shape == want.shape and np.all(np.abs(got - want) <= 1e-12 * (1 + np.abs(want)))
+                except Exception as e:      # noqa
+                    ok, got, want = False, e, None
+                if not ok:
+                    ck.disagree(key='%s.derivative/array-of-parameters' % type(seg).__name__, site='svgpathtools/path.py:%s.derivative' % type(seg).__name__,
+                                what='%r.derivative(%r, %d) = %r, scalar calls give %r' % (seg, ts, k, got, want), case={'z': [str(w) for w in z], 'ts': [float(t_) for t_ in ts], 'n': k},
+                                expected=repr(want), observed=repr(got), driver='arrays')
+                    break
+    for co in ([1, 1, 1, 1], [3, 1, 0], [2, -1, 5, 7], [1, 0, 0, 2], [5, 3], [-4, 7, 1]):
+        n = len(co) - 1
+        q = [F(x) for x in co]      # highest power first
+        # control points of the polynomial sum co[i] t^(n-i): solve by the known inverse (exact)
+        if n == 1:
+            exp = [q[1], q[0] + q[1]]
+        elif n == 2:
+            exp = [q[2], q[1] / 2 + q[2], q[0] + q[1] + q[2]]
+        else:
+            exp = [q[3], q[2] / 3 + q[3], q[1] / 3 + 2 * q[2] / 3 + q[3], q[0] + q[1] + q[2] + q[3]]
+        for spell, arg in (('list of ints', list(co)), ('numpy int array', np.array(co)), ('poly1d of ints', np.poly1d(co)), ('tuple of ints', tuple(co))):
+            ck.case(fp=('int-coefficients', str(co), spell), nontrivial=True)
+            try:
+                got = [complex(w) for w in sppath.poly2bez(arg, return_bpoints=True)]
+                ok = len(got) == len(exp) and all(abs(g_ - complex(float(e_))) <= 1e-12 * 20 for g_, e_ in zip(got, exp))
+            except Exception as e:      # noqa
+                ok, got = False, e
+            if not ok:
+                ck.disagree(key='poly2bez/integer-coefficients', site='svgpathtools/path.py:poly2bez / bezier.py:polynomial2bezier',
+                            what='poly2bez(%s %r) = %r, exact control points %s' % (spell, co, got, [str(e_) for e_ in exp]), case={'co': co, 'spell': spell},
+                            expected=[str(e_) for e_ in exp], observed=repr(got), driver='arrays')
+
+
 def run(ck):
     rnd = random.Random(ck.seed)
     quick = ck.tier == 'quick'
@@ -193,6 +238,7 @@ def run(ck):
     ck.apalache('MC_Ident', 'Inv')
     ck.apalache('MC_Ident', 'Wrong', expect_error=True)
     near_the_ends(ck)
+    arrays_and_integer_coefficients(ck)
     dump = 'SPECIFICATION Spec\nCONSTANTS D = %d\n AMin <- %s\n AMax = %d\n MaxDeg = 3\n Dense <- %s\nINVARIANT Dump\n'
     for D, amin, amax, dense, exact in ((8, 'MinusTwo', 10, 'Dense4', True), (3, 'MinusOne', 4, 'Dense3' if quick else 'Dense4', False)):
         groups = {}
